@@ -163,6 +163,25 @@ def determinism(argv):
         report[pid] = {"seeds": n, "mismatches": mism}
         print(f"determinism {pid}: {n} seeds x 2 fresh interpreters (different PYTHONHASHSEED): {mism} mismatches")
         bad += mism
+    if "--workers-check" in argv:
+        # whole quick check at two worker counts: run digest, evaluation and distinct counts must agree
+        for pid in props:
+            outs = []
+            for w in (3, 16):
+                tmp = tempfile.mkdtemp(prefix="cardsim-det-")
+                env = dict(os.environ, VERIF_WORKERS=str(w), CARDSIM_OUT=tmp, VERIF_SEED="5")
+                subprocess.run([os.path.join(VERIF, "check"), pid], env=env, capture_output=True, text=True, timeout=3600)
+                try:
+                    with open(os.path.join(tmp, "evidence", f"{pid}.json")) as f:
+                        cov = json.load(f)["coverage"]
+                    outs.append((cov["run_digest"], cov["evaluations"], cov["distinct_nontrivial"]))
+                except Exception as e:  # noqa
+                    outs.append(("<no evidence>", repr(e)))
+                shutil.rmtree(tmp, ignore_errors=True)
+            same = outs[0] == outs[1]
+            report.setdefault(pid, {})["workers_3_vs_16"] = {"same": same, "values": outs}
+            print(f"determinism {pid}: whole quick check with 3 and with 16 workers: {'identical' if same else 'DIFFERENT'} {outs[0]}")
+            bad += 0 if same else 1
     os.makedirs(os.path.join(VERIF, "selftest"), exist_ok=True)
     if not prop:
         with open(os.path.join(VERIF, "selftest", "determinism.json"), "w") as f:
